@@ -8,7 +8,7 @@
    (their preconditions); that everything else is free of UB is Rust's guarantee for safe
    code.  The correspondence check ties the single unchecked site to the code (assertion
    hooks inside the unchecked accessors, census of `unsafe` sites).
-   OBLIGATIONS: C15_readers_total C15_iterator_steps_total C15_read_ops_never_ub C15_guard_is_needed C15_nonvacuous C15_legacy_refuted *)
+   OBLIGATIONS: C15_readers_total C15_iterator_steps_total C15_read_ops_never_ub C15_guard_is_needed C15_nonvacuous C15_legacy_refuted C15_arena_mutators_total *)
 From BPT Require Import Common.Base Rust.Arena Rust.Tree Rust.Heap Rust.Readers Rust.Run Rust.NoUB.
 
 (* every map-level reader, on any heap whatsoever *)
@@ -48,6 +48,13 @@ Definition C15_nonvacuous :=
   (items_dmg_short_values, items_fast_dmg_short_values, items_dmg_dangling_next, items_dmg_cycle).
 
 From BPT Require Import Legacy.RustLegacy.
+From BPT Require Import Rust.HeapOps.
+From BPT Require Extra.RustExtra2.
 (* the iterators as pinned reached out-of-bounds unchecked accesses after one safe helper
    call (repaired in /repo) *)
 Definition C15_legacy_refuted := (d11_refuted, d11_sites, items_no_ub_refuted, items_fast_no_ub_refuted).
+
+(* a later safe call that is a MUTATOR on a damaged map: no unchecked access either *)
+Theorem C15_arena_mutators_total : forall (V:Type) (h:heap V) k v z,
+  no_ub (insert_A h k v) /\ no_ub (remove_A h z) /\ no_ub (get_mut_write_A h z v).
+Proof. exact RustExtra2.arena_mutators_total. Qed.
